@@ -10,6 +10,7 @@ import (
 	"regexp"
 	"sort"
 	"strings"
+	"sync"
 	"sync/atomic"
 	"time"
 
@@ -141,6 +142,29 @@ func tvBatch(r *core.Run, dir string, gooseBin string, pkgs []*gorun.Pkg, opt tv
 			per[i] = perPkg{g.Stderr, g.Code, g.Signaled}
 		}
 	}
+	// translated files of the batch by package name: a package that imports another package of the batch
+	// is evaluated together with it (the Require's last component is the package's directory name)
+	batchFiles := map[string]*gl.File{}
+	var bfMu sync.Mutex
+	resolve := func(mod string) *gl.File {
+		bfMu.Lock()
+		defer bfMu.Unlock()
+		if f, ok := batchFiles[mod]; ok {
+			return f
+		}
+		var f *gl.File
+		for _, q := range pkgs {
+			if q.Name == mod {
+				if vb, err := os.ReadFile(b.VPath(outDir, q.Name)); err == nil {
+					if pf, perr := gl.ParseFile(string(vb)); perr == nil {
+						f = pf
+					}
+				}
+			}
+		}
+		batchFiles[mod] = f
+		return f
+	}
 	var out []*tvPkg
 	for pi, p := range pkgs {
 		tp := &tvPkg{Name: p.Name, Source: p.Files, Stderr: per[pi].stderr, ExitCode: per[pi].code}
@@ -167,7 +191,7 @@ func tvBatch(r *core.Run, dir string, gooseBin string, pkgs []*gorun.Pkg, opt tv
 			if perr != nil {
 				tp.ParseErr = perr.Error()
 			} else {
-				prog = gl.NewProgram(f)
+				prog = gl.NewProgramWithImports(f, resolve)
 				prog.GoNames = map[string]bool{}
 				for _, src := range p.Files {
 					for _, n := range goTopLevelNames(src) {
